@@ -25,3 +25,9 @@ pub use crate::pam::*;
 
 #[cfg(test)]
 mod tests;
+
+/// Verification harness access to the (crate-private) PAM core. Off by default.
+#[cfg(feature = "verif-hooks")]
+pub mod verif_hooks {
+    pub use crate::core::*;
+}
